@@ -61,3 +61,228 @@ def doc_check(doc):
         else:
             SX.check(False, 'C02:foreign-object-in-tree', lambda: {'source': src, 'object': repr(e)})
     return ('ok', out, A)
+
+
+# =============================================================================================== C04
+def expr_all(e):
+    """own definition of the complete content list: contents of the argument groups, then the body"""
+    out = []
+    for a in e.args:
+        for x in a._contents:
+            out.append(x)
+    for x in e._contents:
+        out.append(x)
+    return out
+
+
+def is_text(x):
+    return isinstance(x, TexText) or (isinstance(x, str) and not isinstance(x, TexExpr))
+
+
+def text_payload(x):
+    return x._text if isinstance(x, TexText) else x
+
+
+def blank(x):
+    t = SX.raw(str(x))
+    return len(t) > 0 and SX.decide(SX.And(*[SX.ch_ws(ch) for ch in t]))
+
+
+def same_item(got, exp):
+    """got: element of a node-level view; exp: element of the expression tree"""
+    if is_text(exp):
+        return got is text_payload(exp)
+    return isinstance(got, TexNode) and got.expr is exp
+
+
+def nav_node(node, src, root, depth):
+    e = node.expr
+    det = lambda: {'source': src, 'node': SX.raw(str(node))[:80]}
+    contents = node.contents            # (the code decides blankness first; the oracle's decisions are then forced)
+    full = expr_all(e)
+    exp_contents = [x for x in full if not (is_text(x) and blank(x))]
+    SX.check(len(contents) == len(exp_contents) and all([same_item(g, x) for g, x in zip(contents, exp_contents)]),
+             'C04:contents', det)
+    # node-level `all` is claimed for the root only (for other nodes it raises on text inside arguments, see DESIGN)
+    allv = node.all if node is root else []
+    if node is root:
+        SX.check(len(allv) == len(full) and all([isinstance(g, TexNode) and g.expr is x for g, x in zip(allv, full)]),
+                 'C04:all', det)
+    exp_children = [x for x in exp_contents if isinstance(x, (TexEnv, TexCmd))]
+    children = node.children
+    SX.check(len(children) == len(exp_children) and all([g.expr is x for g, x in zip(children, exp_children)]),
+             'C04:children', det)
+    it = list(node)
+    SX.check(len(it) == len(exp_contents) and all([same_item(g, x) for g, x in zip(it, exp_contents)]), 'C04:iteration', det)
+    for i in range(len(exp_contents)):
+        SX.check(same_item(node[i], exp_contents[i]), 'C04:indexing', det)
+    for view, name in ((contents, 'contents'), (children, 'children'), (allv, 'all'), (it, 'iteration')):
+        for g in view:
+            if isinstance(g, TexNode):
+                SX.check(g.parent is node, 'C04:parent-of-' + name, det)
+    # descendants = transitive closure of contents, every node once
+    exp_desc = []
+
+    def close(x_contents):
+        for x in x_contents:
+            exp_desc.append(x)
+        for x in x_contents:
+            if isinstance(x, (TexEnv, TexCmd)):
+                close([y for y in expr_all(x) if not (is_text(y) and blank(y))])
+    close(exp_contents)
+    desc = list(node.descendants)
+    ok = len(desc) == len(exp_desc)
+    if ok:
+        used = [False] * len(exp_desc)
+        for g in desc:
+            hit = False
+            for j, x in enumerate(exp_desc):
+                if not used[j] and same_item(g, x):
+                    used[j] = True
+                    hit = True
+                    break
+            ok = ok and hit
+    SX.check(ok, 'C04:descendants', lambda: dict(det(), got=len(desc), expected=len(exp_desc)))
+    for g in desc:
+        if isinstance(g, TexNode):
+            p = g
+            steps = 0
+            while p.parent is not None and steps < 50:
+                p = p.parent
+                steps += 1
+            SX.check(p is node or p is root or (p.expr is root.expr), 'C04:parent-walk', det)
+    # text view: non-blank text leaves in document order
+    exp_text = []
+
+    def texts(x_contents):
+        for x in x_contents:
+            if is_text(x):
+                exp_text.append(text_payload(x))
+            elif isinstance(x, TexExpr):
+                texts([y for y in expr_all(x) if not (is_text(y) and blank(y))])
+    texts(exp_contents)
+    tv = node.text
+    SX.check(len(tv) == len(exp_text) and all([g is x for g, x in zip(tv, exp_text)]), 'C04:text', det)
+    if depth < 6:
+        for c in contents:
+            if isinstance(c, TexNode):
+                nav_node(c, src, root, depth + 1)
+
+
+def doc_nav(doc):
+    d = K.instantiate(doc, SX)
+    src = K.doc_src(d)
+    try:
+        soup = TexSoup(src)
+    except Exception as e:
+        return ('parse-fails', type(e).__name__)
+    SX.check(''.join([SX.raw(str(x)) for x in soup.all]) == src, 'C04:root-all-concatenates',
+             lambda: {'source': src})
+    try:
+        nav_node(soup, src, soup, 0)
+    except Exception as e:
+        SX.check(False, 'C04:view-raises:' + type(e).__name__, lambda: {'source': src, 'sig': exc_sig(e), 'error': repr(e)[:300]})
+        return ('raised', type(e).__name__)
+    return ('ok', str(soup))
+
+
+# =============================================================================================== C03
+def all_exprs(e, out):
+    """every non-text expression below e, own traversal (argument groups are containers, not nodes)"""
+    for x in expr_all(e):
+        if isinstance(x, TexExpr) and not isinstance(x, TexText):
+            out.append(x)
+            all_exprs(x, out)
+    return out
+
+
+def matches(x, q):
+    """the property's own reading of a query (mirrors decisions the search takes anyway)"""
+    if isinstance(q, list):
+        return any([SX.decide(SX.s_eq(SX.raw(x.name), n)) for n in q])
+    if '{' in q or '[' in q or (len(q) > 0 and q[0] == '\\'):
+        if isinstance(x, TexNamedEnv):
+            opening = '\\begin{%s}' % SX.raw(x.name) + SX.raw(str(x.args))
+            if SX.decide(SX.Or(SX.s_eq(opening, q), SX.s_eq('\\begin{%s}' % SX.raw(x.name), q),
+                               SX.s_eq('\\end{%s}' % SX.raw(x.name), q))):
+                return True
+        return SX.decide(SX.s_eq(SX.raw(str(x)), q))
+    return SX.decide(SX.s_eq(SX.raw(x.name), q))
+
+
+def search_from(node, q, src, qdesc):
+    det = lambda: {'source': src, 'query': repr(q), 'root': SX.raw(str(node))[:60], 'kind': qdesc}
+    try:
+        got = node.find_all(q)
+        first = node.find(q)
+        cnt = node.count(q)
+    except Exception as e:
+        SX.check(False, 'C03:search-raises:' + type(e).__name__, lambda: dict(det(), error=repr(e)[:200], sig=exc_sig(e)))
+        return -1
+    exp = [x for x in all_exprs(node.expr, []) if matches(x, q)]
+    ok = len(got) == len(exp)
+    if ok:
+        used = [False] * len(exp)
+        for g in got:
+            hit = False
+            for j, x in enumerate(exp):
+                if not used[j] and isinstance(g, TexNode) and g.expr is x:
+                    used[j] = True
+                    hit = True
+                    break
+            ok = ok and hit
+    SX.check(ok, 'C03:find_all', lambda: dict(det(), got=[SX.raw(str(g))[:40] for g in got], expected=[SX.raw(str(x))[:40] for x in exp]))
+    SX.check((first is None) if not got else (first is not None and first.expr is got[0].expr), 'C03:find-is-first', det)
+    SX.check(cnt == len(got), 'C03:count', det)
+    return len(got)
+
+
+def doc_search(doc, qkind):
+    d = K.instantiate(doc, SX)
+    src = K.doc_src(d)
+    try:
+        soup = TexSoup(src)
+    except Exception as e:
+        return ('parse-fails', type(e).__name__)
+    exprs = all_exprs(soup.expr, [])
+    names = []
+    for x in exprs:
+        n = SX.raw(x.name)
+        if isinstance(x, (TexCmd, TexNamedEnv)):
+            names.append(n)         # (no de-duplication: it would depend on the values of symbolic names)
+    roots = [soup] + [n for n in soup.descendants if isinstance(n, TexNode)][:5]
+    res = []
+    if qkind == 'fresh':
+        q = SX.fresh(1)
+        SX.assume(SX.ch_in(q, K.LETTERS))
+        queries = [(q, 'symbolic one-letter name')]
+        q2 = SX.fresh(2)
+        for ch in q2:
+            SX.assume(SX.ch_in(ch, K.LETTERS))
+        queries.append((q2, 'symbolic two-letter name'))
+    elif qkind == 'names':
+        queries = [(n, 'name occurring in the document') for n in names[:6]] + [('zzzq', 'absent name')]
+    elif qkind == 'lists':
+        queries = [([names[i], names[(i + 1) % len(names)]], 'list of two names') for i in range(min(3, len(names)))] if names else []
+        queries.append((['zzzq', 'item'], 'list with an absent name'))
+    elif qkind == 'exprs':
+        queries = []
+        for x in exprs[:6]:
+            if isinstance(x, TexNamedEnv):
+                queries.append(('\\begin{%s}' % SX.raw(x.name), 'environment opening'))
+            elif isinstance(x, TexCmd) and len(x.args) > 0:
+                queries.append((SX.raw(str(x)), 'full command text'))
+        queries.append(('\\zzzq{x}', 'absent expression'))
+    else:
+        raise AssertionError(qkind)
+    for q, qd in queries:
+        for r in roots:
+            res.append(search_from(r, q, src, qd))
+    if qkind == 'names':
+        for n in names[:6]:
+            if len(n) <= 2 or n in ('itemize', 'enumerate', 'item', 'newcommand', 'renewcommand', 'providecommand', 'equation', 'verbatim'):
+                got = getattr(soup, n)
+                f = soup.find(n)
+                SX.check((got is None and f is None) or (got is not None and f is not None and got.expr is f.expr),
+                         'C03:attribute-access', lambda: {'source': src, 'name': n})
+    return ('ok', tuple(res))
